@@ -178,6 +178,17 @@ theorem emu_cursor_shape {t : Term.T} {e : Emu} {rows cols : Nat} (s : SimC t e 
       ∃ t', Term.step t (.cursorShape n) = .accept [t'] ∧ SimC t' r.1 rows cols :=
   cursorShape_step s n hn
 
+/-- **Hyperlinks** (`OSC 8 ; params ; url ST`, parameter string without `;`, `Model.OSC8` on — the
+    default): the step succeeds, the reference state whose pen hyperlink is `url` is related to the
+    result (every glyph printed from now on carries it: `Sim.link` + `print_refines`), and the
+    emulator keeps the parameter string beside it. `Spec.Term` has no token for OSC 8 (the pen's
+    hyperlink is part of its state), so the reference side is written out. -/
+theorem emu_hyperlink {t : Term.T} {e : Emu} {rows cols : Nat} (s2 : Sim2 t e rows cols) (params url : List Nat)
+    (ho : e.osc8 = true) (hP : 59 ∉ params) :
+    ∃ r, emuStep e (.osc ([56, 59] ++ params ++ [59] ++ url) {}) = .ok r ∧
+      Sim2 { t with link := url } r.1 rows cols ∧ r.1.cur.st.linkParams = params :=
+  ⟨_, osc8_eq e params url ho hP, sim2_setLink s2 params url, rfl⟩
+
 /-- `tokOfX` agrees with these statements: its tokens for the two cursor functions. -/
 example : tokOfX (.csi [63, 108] [(25, [])]) = some (.showCursor false) ∧
     tokOfX (.csi [32, 113] [(4, [])]) = some (.cursorShape 4) := by decide
